@@ -28,6 +28,10 @@ class Prop:
     pid = "C00"
     lean_module = "RxModel.Props.C00"
     extra_modules = ()        # further property modules (e.g. the lock-level part C15T)
+    # translator tie: Lean modules RxModel.GenTie.* (theorems: the observer GENERATED from /repo/src by rs2lean
+    # is the machine of the hand-written model) -> the pipeline heads whose population is widened when one breaks
+    tie_modules = {}
+    focus = ()                # set by the runner when a tie is broken
     design_ref = "DESIGN.md §6"
     rule = ""
     trusted_base = []
@@ -152,6 +156,32 @@ def run_property(prop, tier, seed, replay=None):
             proof_ok = False
             problems.append("leanchecker-failed")
             log(lo[-2000:])
+
+    # 1b. translator tie: regenerate the observers from the current source, re-check the tie theorems
+    tie_broken = {}
+    if prop.tie_modules:
+        tie_broken, tlog, tt = core.regen_and_tie(sorted(prop.tie_modules))
+        notes.append(f"rs2lean+tie {tt:.1f}s")
+        if tie_broken:
+            proof_ok = False
+            for m, msg in sorted(tie_broken.items()):
+                problems.append(f"gen-tie-broken: {m}: {msg}")
+            log(tlog[-3000:])
+            prop.focus = sorted({h for m in tie_broken for h in prop.tie_modules[m]})
+        good = [m for m in sorted(prop.tie_modules) if m not in tie_broken]
+        if good and ok:
+            a2 = core.audit_axioms(good, pid + "_tie")
+            audit["theorems"] += a2["theorems"]
+            audit["axioms"].update(a2["axioms"])
+            audit["bad"].update(a2["bad"])
+            audit["missing"] += a2["missing"]
+            if a2["bad"] or a2["missing"] or a2["rc"] != 0:
+                proof_ok = False
+                problems.append(f"axiom-audit (tie): bad={a2['bad']} missing={a2['missing']}")
+        for m in tie_broken:
+            audit["theorems"] += core.theorems_of(m)       # obligations that are NOT discharged now
+        obligations = len(audit["theorems"])
+        discharged = len([t for t in audit["theorems"] if t in audit["axioms"] and t not in audit["bad"]])
 
     # 2. harness against the current /repo
     hok, hout, th = core.build_harness()
@@ -297,7 +327,7 @@ def run_property(prop, tier, seed, replay=None):
                            any(p.startswith("run-error") for p in problems)):
         path = core.write_replay(pid, None, {"property": pid, "kind": "obligation-broken",
                                              "what": "; ".join(problems),
-                                             "theorem_module": " ".join(modules)})
+                                             "theorem_module": " ".join(modules + sorted(tie_broken))})
         violations.append((path, " no-failing-input-found"))
 
     for sig, kf in known_hits.items():
